@@ -45,7 +45,7 @@ def falsyCore (i : E) (negated : Bool) : Option Bool :=
   match i with
   | lit .false => some (!negated)
   | lit .null => some (!negated)
-  | lit (.str _) => some negated   -- `len(lit.Data) == 0` never holds (the data includes the quotes): "" counts as truthy
+  | lit (.str s) => if s == "" then some (!negated) else some negated
   | lit .true => some negated
   | lit (.num n) => if n == 0 then some (!negated) else some negated
   | var n => if n == "undefined" || n == "NaN" then some (!negated) else none
@@ -113,6 +113,12 @@ def isUndefinedOrNull (i : E) : Bool :=
   | lit l => l == .null
   | e => isUndefined e
 
+/-- `isNullLiteral` -/
+def isNullLit (i : E) : Bool :=
+  match i.inner with
+  | lit l => l == .null
+  | _ => false
+
 /-- one side of `a==null`: the variable compared with `null`/`undefined` -/
 def nullCmpVar (x y : E) : Option String :=
   match x with
@@ -131,7 +137,12 @@ def isUndefinedOrNullVar (i : E) : Option (String × Bool) :=
       | bin lop lx ly, bin rop rx ry =>
         if okOp lop && okOp rop then
           match nullCmpVar lx ly, nullCmpVar rx ry with
-          | some v, some w => if v == w then some (v, isAnd) else none
+          | some v, some w =>
+            -- with two strict comparisons both `null` and `undefined` must be tested
+            let bothStrict := (lop == .seq || lop == .sne) && (rop == .seq || rop == .sne)
+            let leftNull := isNullLit lx || isNullLit ly
+            let rightNull := isNullLit rx || isNullLit ry
+            if v == w && (!bothStrict || leftNull != rightNull) then some (v, isAnd) else none
           | _, _ => none
         else none
       | _, _ => none
